@@ -5,6 +5,7 @@ import (
 	"fmt"
 	"go/ast"
 	"go/format"
+	"go/token"
 	"go/types"
 	"iter"
 	"slices"
@@ -180,4 +181,43 @@ func EditMatch(pass *analysis.Pass, node ast.Node, m *pattern.Matcher, after pat
 		NewText: buf.Bytes(),
 	}}
 	return edit
+}
+
+// ParenthesizeFor returns replacement, wrapped in parentheses if it is an
+// operator expression and old (the node it will textually replace) is an
+// operand of an expression that binds tighter than a statement or argument
+// position does: 8 / math.Pow(x, 2) must become 8 / (x * x).
+func ParenthesizeFor(pass *analysis.Pass, old ast.Node, replacement ast.Expr) ast.Expr {
+	switch replacement.(type) {
+	case *ast.BinaryExpr, *ast.UnaryExpr, *ast.StarExpr:
+	default:
+		return replacement
+	}
+	c, ok := Cursor(pass).FindNode(old)
+	if !ok {
+		return &ast.ParenExpr{X: replacement}
+	}
+	switch parent := c.Parent().Node().(type) {
+	case *ast.BinaryExpr, *ast.UnaryExpr, *ast.StarExpr, *ast.SelectorExpr, *ast.IndexExpr, *ast.IndexListExpr, *ast.SliceExpr, *ast.TypeAssertExpr:
+		return &ast.ParenExpr{X: replacement}
+	case *ast.CallExpr:
+		if parent.Fun == old {
+			return &ast.ParenExpr{X: replacement}
+		}
+	}
+	return replacement
+}
+
+// PackageNameResolves reports whether the identifier name, used at pos, denotes
+// the imported package with the given path (and not, say, a local variable or
+// nothing at all because the package was imported under another name).
+// Fixes that spell a package-qualified identifier must check this first.
+func PackageNameResolves(pass *analysis.Pass, pos token.Pos, name, path string) bool {
+	scope := pass.Pkg.Scope().Innermost(pos)
+	if scope == nil {
+		return false
+	}
+	_, obj := scope.LookupParent(name, pos)
+	pkgName, ok := obj.(*types.PkgName)
+	return ok && pkgName.Imported().Path() == path
 }
